@@ -2213,3 +2213,192 @@ func checkInsertKeyAbsolute(c *core.Ctx) {
 		c.Undecided("R16.13", "key computation of the descriptor table's Insert", 0, "not found")
 	}
 }
+
+// ---- rules added after the ninth round of seeded changes ----
+
+// checkElementIndexesCheckedForEveryMode (R03.21): the range check of the function (and global) indexes of an element
+// segment is made for every segment, whatever its mode: ref.func is validated only against the set of declared indexes.
+func checkElementIndexesCheckedForEveryMode(c *core.Ctx) {
+	p := c.Pkg("internal/wasm")
+	if p == nil {
+		return
+	}
+	info := p.TypesInfo
+	n := 0
+	core.AllFuncDecls(p, func(fd *ast.FuncDecl) {
+		ast.Inspect(fd.Body, func(x ast.Node) bool {
+			var body *ast.BlockStmt
+			var over ast.Expr
+			switch l := x.(type) {
+			case *ast.RangeStmt:
+				body, over = l.Body, l.X
+			default:
+				return true
+			}
+			if !strings.HasSuffix(core.ExprStr(over), "ElementSection") {
+				return true
+			}
+			// the loop that range-checks the init indexes: it contains a loop over an Init list with an error return
+			first := -1
+			for i, st := range body.List {
+				if rs, ok := st.(*ast.RangeStmt); ok && strings.HasSuffix(core.ExprStr(rs.X), ".Init") {
+					rets := false
+					ast.Inspect(rs.Body, func(y ast.Node) bool {
+						if r, ok := y.(*ast.ReturnStmt); ok && len(r.Results) > 0 {
+							rets = true
+						}
+						return true
+					})
+					if rets && first < 0 {
+						first = i
+					}
+				}
+			}
+			if first < 0 {
+				return true
+			}
+			n++
+			skip := ""
+			for _, st := range body.List[:first] {
+				is, ok := st.(*ast.IfStmt)
+				if !ok {
+					continue
+				}
+				leaves := false
+				ast.Inspect(is.Body, func(y ast.Node) bool {
+					if b, ok := y.(*ast.BranchStmt); ok && (b.Tok == token.CONTINUE || b.Tok == token.BREAK) {
+						leaves = true
+					}
+					return true
+				})
+				if leaves {
+					skip = "`if " + core.ExprStr(is.Cond) + "` at " + c.Pos(is.Pos())
+				}
+			}
+			_ = info
+			c.Check(skip == "", "R03.21", core.FuncName(p, fd)+": the indexes of every element segment are range-checked, whatever its mode", x.Pos(),
+				"no segment is skipped before the loop that checks its init indexes",
+				skip+" skips segments before their function indexes are range-checked: `ref.func N` is validated only against the set of indexes that occur in element segments, so a declarative segment naming a function that does not exist makes FunctionInstanceReference index out of range at run time")
+			return true
+		})
+	})
+	if n == 0 {
+		c.Undecided("R03.21", "range check of element segment indexes", 0, "not found")
+	}
+}
+
+// checkLookupUsesDefiningEngine (R04.17): the host-side call_indirect (ModuleInstance.LookupFunction) creates the function
+// object with the engine of the instance that DEFINES the function: the index it got back is an index of that instance.
+func checkLookupUsesDefiningEngine(c *core.Ctx) {
+	n := 0
+	for _, fn := range moduleFns(c, "internal/wasm") {
+		if fn.Parent() != nil || fn.Signature.Recv() == nil || len(fn.Params) == 0 {
+			continue
+		}
+		// a method that asks its engine to look a table slot up (result: defining instance, index) and then creates functions
+		var lookup *ssa.Call
+		for _, b := range fn.Blocks {
+			for _, in := range b.Instrs {
+				if call, ok := in.(*ssa.Call); ok && call.Common().IsInvoke() && call.Common().Method.Name() == "LookupFunction" {
+					lookup = call
+				}
+			}
+		}
+		if lookup == nil {
+			continue
+		}
+		for _, b := range fn.Blocks {
+			for _, in := range b.Instrs {
+				call, ok := in.(*ssa.Call)
+				if !ok || !call.Common().IsInvoke() || call.Common().Method.Name() != "NewFunction" {
+					continue
+				}
+				n++
+				// the engine value: load of <instance>.Engine – which instance?
+				fromReceiver := false
+				if ld, ok := call.Common().Value.(*ssa.UnOp); ok {
+					if fa, ok := ld.X.(*ssa.FieldAddr); ok && fa.X == ssa.Value(fn.Params[0]) {
+						fromReceiver = true
+					}
+				}
+				c.Check(!fromReceiver, "R04.17", core.SSAFuncName(fn)+": the looked-up function is created by the engine of the instance that defines it", call.Pos(),
+					"NewFunction is called on the engine of the instance returned by the lookup",
+					"NewFunction(index) is called on the receiver's engine, but index is the function's index in the instance that defines it (the one the table slot refers to): through a shared table the same slot resolves to another function depending on which instance it is looked up through")
+			}
+		}
+	}
+	if n == 0 {
+		c.Undecided("R04.17", "host-side table lookup", 0, "no method calling Engine.LookupFunction and NewFunction found")
+	}
+}
+
+// checkConstLabelSlotsPaired (R05.10): each memoised constant of the amd64 backend has its own slot: a slot is always used
+// with the same data, and a data block with the same slot.
+func checkConstLabelSlotsPaired(c *core.Ctx) {
+	p := c.Pkg("internal/engine/wazevo/backend/isa/amd64")
+	if p == nil {
+		return
+	}
+	info := p.TypesInfo
+	slotData, dataSlot := map[string]map[string]token.Pos{}, map[string]map[string]token.Pos{}
+	n := 0
+	core.AllFuncDecls(p, func(fd *ast.FuncDecl) {
+		ast.Inspect(fd.Body, func(x ast.Node) bool {
+			call, ok := x.(*ast.CallExpr)
+			if !ok || len(call.Args) != 2 {
+				return true
+			}
+			f := core.Callee(info, call)
+			if f == nil || !strings.Contains(strings.ToLower(f.Name()), "constlabel") {
+				return true
+			}
+			u, ok := ast.Unparen(call.Args[0]).(*ast.UnaryExpr)
+			if !ok || u.Op != token.AND {
+				return true
+			}
+			slot, data := core.ExprStr(u.X), core.ExprStr(call.Args[1])
+			n++
+			if slotData[slot] == nil {
+				slotData[slot] = map[string]token.Pos{}
+			}
+			if dataSlot[data] == nil {
+				dataSlot[data] = map[string]token.Pos{}
+			}
+			slotData[slot][data] = call.Pos()
+			dataSlot[data][slot] = call.Pos()
+			return true
+		})
+	})
+	if n < 4 {
+		c.Undecided("R05.10", "memoised constants of the amd64 backend", 0, fmt.Sprintf("only %d uses found", n))
+		return
+	}
+	var bad []string
+	var pos token.Pos
+	for slot, ds := range slotData {
+		if len(ds) > 1 {
+			var names []string
+			for d, ps := range ds {
+				names = append(names, d)
+				pos = ps
+			}
+			sort.Strings(names)
+			bad = append(bad, "slot "+slot+" is used with "+strings.Join(names, " and "))
+		}
+	}
+	for data, ss := range dataSlot {
+		if len(ss) > 1 {
+			var names []string
+			for s2, ps := range ss {
+				names = append(names, s2)
+				pos = ps
+			}
+			sort.Strings(names)
+			bad = append(bad, "constant "+data+" is memoised in "+strings.Join(names, " and "))
+		}
+	}
+	sort.Strings(bad)
+	c.Check(len(bad) == 0, "R05.10", "amd64: every memoised constant has its own slot", pos,
+		fmt.Sprintf("%d uses, slot and data are paired one to one", n),
+		strings.Join(bad, "; ")+": whichever use is lowered first in a function decides the bytes behind the label, the other instruction computes with the wrong constant (only when both occur in one function)")
+}
